@@ -2,7 +2,7 @@
 import vf
 
 ID = 'C14'
-FLAVORS = ['default']
+FLAVORS = ['default', 'prec99']
 RULE = ('stream int2str: (width, value, buffer length, base, signed) drawn from boundary values (0, powers of the bases +-1, 2^31, 2^63, ...) and '
         'random magnitudes x all bases incl. unsupported ones x lengths 0..70; a case is non-trivial when the canonical text has >= 2 characters; '
         'distinct = distinct (case) lines. stream sweep32: 32-bit values swept inside the sanitised driver against libc printf '
@@ -78,6 +78,9 @@ def streams(tier, rng):
                     for ln in (rng.sample(lens, 3) + [rng.randrange(0, 71)]):
                         cases.append('I2S %d %d %d %d %d %d' % (w, (v >> 32) & 0xffffffff, v & 0xffffffff, ln, base, sign))
     yield {'name': 'int2str', 'coqcheck': True, 'cases': cases, 'oracle': oracle,
+           'nontrivial': lambda c, o: c if len(o.split()) == 4 and len(o.split()[1]) >= 4 else None}
+    # a compiler that does not announce C99: scpi_bool_t is unsigned char, a flag obtained by masking a high bit is truncated
+    yield {'name': 'int2str-pre-c99', 'flavor': 'prec99', 'cases': cases[::7], 'oracle': oracle,
            'nontrivial': lambda c, o: c if len(o.split()) == 4 and len(o.split()[1]) >= 4 else None}
     # sweep inside the driver against libc
     if tier == 'quick':
